@@ -50,6 +50,14 @@ CHECKS = {
             'one-frame-per-read baseline with no exception; ALL 2^(n-1) cut sets are enumerated for short one- and two-frame streams.',
             'Streams whose baseline is not clean (recorded findings) are excluded and counted.',
             'DESIGN.md 4 C06'),
+    'C07': ('hypothesis mutation fuzzing of valid frame streams; justification oracle (independent frame reference over the bytes fed so far) through a recording decoder proxy; exhaustive bit-flip and ASCII-character sweeps',
+            'Generated valid write-frame streams are corrupted by generated mutation lists and chunkings; every (unit, PDU) the '
+            'framer hands to its decoder must be backed by a checksum-valid frame found by the independent reference in the '
+            'bytes fed so far, nothing may be delivered when the independent finder sees no valid frame, and the same stream '
+            'through the serial server handler may only change cells that a justified write prescribes. Exhaustive single-bit '
+            '(thorough: double-bit) flips of frames on every framing and every single-character substitution of ASCII frames.',
+            'One-directional by design (C11 owns lost neighbours); reference CRC/LRC/hex/MBAP rules in vlib/refframe.py.',
+            'DESIGN.md 4 C07'),
     'C09': ('hypothesis request histories x 7 in-process front-ends x framings x contexts x flags x delivery groupings; oracle = independent frame parser + expected response sequence',
             'Generated histories of well-formed requests of every kind (valid, invalid, unassigned functions, hosted/absent/'
             'broadcast units, listen-only last) delivered one or several per read to each of the seven server front-ends driven '
@@ -65,6 +73,14 @@ CHECKS = {
             '256 unit ids x hosted-set shapes x flags x front-ends.',
             'Harness subclass of ModbusSlaveContext counts setValues; filter-dropped frames count as unanswered.',
             'DESIGN.md 4 C10'),
+    'C11': ('hypothesis garbage prefixes + long runs of valid frames on serial framings; bounded-recovery oracle (every frame beyond e+2 max frames delivered exactly once in order; backlog bound) at framer level and through the serial / stream server handlers',
+            'Generated garbage (random bytes, corrupted / truncated / foreign-unit frames, delimiter characters, headers announcing '
+            'a body that never comes) in arbitrary chunks, followed by 70-170 distinct valid frames k per read, fed to the '
+            'framer driven like the serial handler and to the real sync serial, asyncio and Twisted handlers with a serial '
+            'framer; every valid frame that starts two maximum-size frames after the end of the garbage must be delivered '
+            '(answered) exactly once, in order, and the receive buffer must stay bounded.',
+            'Bounded form of "eventually" as the property states; valid frames arrive whole within a read.',
+            'DESIGN.md 4 C11'),
     'C12': ('hypothesis hostile byte streams (random / mutated valid traffic / validly framed malformed PDUs) x chunkings x 7 front-ends x 5 framings; oracle = no escaping exception + justified-write finder + probe on a fresh connection',
             'Generated byte streams of three kinds, arbitrarily chunked, fed to every server front-end driven in-process; the '
             'check requires that no exception leaves the serving code, that every changed datastore cell is explained by a '
